@@ -14,9 +14,11 @@ from lib.engine import R, V, enum_part, hyp_part
 ID = 'C16'
 RULE = ('tokenizer cases: every string up to a length bound over a small alphabet (exhaustive) + Hypothesis strings up to 40 chars; '
         'matcher cases: every (query, single phrase) pair up to small bounds (exhaustive) + Hypothesis dictionaries of 1-30 phrases in '
-        'list / list+ids / dict form with queries biased to contain inserted phrases glued to neighbours; non-trivial = tokenizer input '
+        'list / list+ids / dict form with queries biased to contain inserted phrases glued to neighbours; histories on ONE matcher object '
+        '(dictionary grown by further init/insert calls after searches, token-level searches consumed lazily and interleaved, searches from '
+        '2-4 threads at once), every search compared with the reference matcher for the dictionary at that moment; non-trivial = tokenizer input '
         'with >= 2 tokens of which two are adjacent without a blank, or matcher case with >= 1 expected match that touches a non-blank '
-        'neighbour or a phrase that is a token-prefix of another; distinct = distinct (tokenizer, input) / (tokenizer, dictionary, query)')
+        'neighbour or a phrase that is a token-prefix of another, or a history that searches after the dictionary grew / interleaves lazy searches / uses threads; distinct = distinct (tokenizer, input) / (tokenizer, dictionary, query)')
 ASSUMPTIONS = ['reference tokenizers use str.isspace/isalpha/isdigit of CPython (the documented character classes)',
                'phrases contain at least one non-blank character (precondition every caller in the repository enforces)']
 
@@ -189,7 +191,170 @@ def run_match(case):
              obs={'matches': [list(x) for x in got[:6]]}, key=[case['tok'], form, case['entries'], query])
 
 
+# ---- histories on one matcher ----------------------------------------------------------------------------------------
+def ref_find_tokens(texts, entries, unit):
+    """token-level expectation: (first token index, number of tokens, sorted distinct ids)"""
+    groups = {}
+    for pid, phrase in entries:
+        groups.setdefault(tuple(t[2] for t in ref_tokenize(phrase, unit)), set()).add(str(pid))
+    out = []
+    for i in range(len(texts)):
+        for key, ids in groups.items():
+            if key and tuple(texts[i:i + len(key)]) == key:
+                out.append((i, len(key), tuple(sorted(ids))))
+    return sorted(out)
+
+
+def run_history(case):
+    """one matcher object, a generated history of operations on it: dictionaries added in several steps (init again, insert), complete
+    searches, token-level searches consumed lazily and interleaved with other searches, searches from several threads at once.  Every
+    search must return exactly what the reference matcher finds for the dictionary as it stands at that moment."""
+    import sys
+    import threading
+    from recognizers_text.matcher.string_matcher import StringMatcher
+    unit = case['tok'] == 'unit'
+    m = StringMatcher(tokenizer=get_tokenizer(case['tok']))
+    entries = []
+    open_gens = []      # [generator, token texts, collected]
+    vs = []
+    finds = 0
+    after_growth = False
+    grown = False
+
+    def snap(r):
+        return (r.start, r.length, tuple(sorted({str(x) for x in r.canonical_values})))
+
+    def check_full(q, got, how):
+        exp, _, _ = ref_find(q, entries, unit)
+        exp = sorted((a, b, c, tuple(sorted({str(x) for x in d}))) for a, b, c, d in exp)
+        if sorted(got) != exp:
+            vs.append(V('HISTORY_MATCH_DIFF', {'history': case['ops'], 'query': q, 'how': how, 'missing': [list(x) for x in exp if x not in got][:4],
+                                               'extra': [list(x) for x in got if x not in exp][:4]}, bucket='HISTORY:' + how))
+
+    def full(q):
+        return [(r.start, r.length, r.text, tuple(sorted({str(x) for x in r.canonical_values}))) for r in m.find(q)]
+
+    def drain():
+        # finish the open lazy searches round-robin, one result at a time
+        while any(g[0] is not None for g in open_gens):
+            for g in open_gens:
+                if g[0] is not None:
+                    try:
+                        g[2].append(snap(next(g[0])))
+                    except StopIteration:
+                        g[0] = None
+                    except Exception as e:      # noqa: BLE001 - a crash of the search is a finding of this check
+                        g[0] = None
+                        g[2].append((-1, -1, ('raised ' + type(e).__name__,)))
+        for g in open_gens:
+            exp = ref_find_tokens(g[1], g[3], unit)
+            if sorted(g[2]) != exp:
+                vs.append(V('HISTORY_MATCH_DIFF', {'history': case['ops'], 'tokens': g[1], 'how': 'lazy', 'expected': [list(x) for x in exp][:6],
+                                                   'got': [list(x) for x in g[2]][:6]}, bucket='HISTORY:lazy'))
+        del open_gens[:]
+
+    for op in case['ops']:
+        if vs:
+            break
+        kind = op[0]
+        if kind in ('init', 'insert'):
+            drain()
+            if kind == 'init':
+                es = [(e[0], e[1]) for e in op[2]]
+                if op[1] == 'list':
+                    es = [(p, p) for _, p in es]
+                    m.init([p for _, p in es])
+                elif op[1] == 'ids':
+                    m.init([p for _, p in es], [i for i, _ in es])
+                else:
+                    d = {}
+                    for i, p in es:
+                        d.setdefault(i, []).append(p)
+                    m.init(d)
+                entries.extend(es)
+            else:
+                m.matcher.insert([t[2] for t in ref_tokenize(op[2], unit)], op[1])
+                entries.append((op[1], op[2]))
+            if finds:
+                grown = True
+        elif kind == 'find':
+            finds += 1
+            after_growth = after_growth or grown
+            check_full(op[1], full(op[1]), 'find')
+        elif kind == 'lazy':
+            finds += 1
+            texts = [t[2] for t in ref_tokenize(op[1], unit)]
+            open_gens.append([iter(m.find(texts)), texts, [], list(entries)])
+        elif kind == 'step':
+            live = [g for g in open_gens if g[0] is not None]
+            if live:
+                g = live[op[1] % len(live)]
+                try:
+                    g[2].append(snap(next(g[0])))
+                except StopIteration:
+                    g[0] = None
+                except Exception as e:      # noqa: BLE001
+                    g[0] = None
+                    g[2].append((-1, -1, ('raised ' + type(e).__name__,)))
+        elif kind == 'threads':
+            finds += 1
+            qs = op[1]
+            outs = [None] * len(qs)
+            barrier = threading.Barrier(len(qs))
+
+            def work(k):
+                barrier.wait(timeout=30)
+                try:
+                    for _ in range(3):
+                        outs[k] = full(qs[k])
+                except Exception as e:      # noqa: BLE001
+                    outs[k] = [(-1, -1, type(e).__name__, ())]
+            old = sys.getswitchinterval()
+            sys.setswitchinterval(1e-5)
+            try:
+                ths = [threading.Thread(target=work, args=(k,)) for k in range(len(qs))]
+                for t in ths:
+                    t.start()
+                for t in ths:
+                    t.join()
+            finally:
+                sys.setswitchinterval(old)
+            for k, q in enumerate(qs):
+                check_full(q, outs[k], 'threads')
+    if not vs:
+        drain()
+    kinds = {op[0] for op in case['ops']}
+    return R(vs, nontrivial=after_growth or ('lazy' in kinds and 'step' in kinds) or 'threads' in kinds,
+             labels=['history', 'tok:' + case['tok']] + (['grown-after-find'] if after_growth else []) + sorted('op:' + k for k in kinds),
+             obs={'ops': len(case['ops']), 'phrases': len(entries)}, key=[case['tok'], case['ops']])
+
+
+def history_cases():
+    phrase = st.text(st.sampled_from(ALPHA), min_size=1, max_size=5).filter(lambda p: p.strip() != '')
+    pool = st.lists(phrase, min_size=2, max_size=8, unique=True)
+    ids = st.sampled_from(['id1', 'id2', 'id3', 'X'])
+
+    def with_ops(ps):
+        some = st.sampled_from(ps)
+        seg = st.one_of(some, some, st.text(st.sampled_from(ALPHA), max_size=2), st.sampled_from([' ', ' ', '']))
+        query = st.lists(seg, min_size=1, max_size=7).map(lambda x: ''.join(x)[:30])
+        entries = st.lists(st.tuples(ids, some).map(list), min_size=1, max_size=4)
+        op = st.one_of(
+            st.tuples(st.just('init'), st.sampled_from(['list', 'ids', 'dict']), entries).map(list),
+            st.tuples(st.just('insert'), ids, some).map(list),
+            st.tuples(st.just('find'), query).map(list), st.tuples(st.just('find'), query).map(list),
+            st.tuples(st.just('lazy'), query).map(list),
+            st.tuples(st.just('step'), st.integers(0, 3)).map(list), st.tuples(st.just('step'), st.integers(0, 3)).map(list),
+            st.tuples(st.just('threads'), st.lists(query, min_size=2, max_size=4)).map(list))
+        first = st.tuples(st.just('init'), st.sampled_from(['list', 'ids', 'dict']), entries).map(list)
+        return st.builds(lambda f, ops, tok: {'tok': tok, 'ops': [f] + ops}, first, st.lists(op, min_size=1, max_size=12),
+                         st.sampled_from(['simple', 'unit']))
+    return pool.flatmap(with_ops)
+
+
 def run_any(case):
+    if 'ops' in case:
+        return run_history(case)
     return run_match(case) if 'query' in case else run_tok(case)
 
 
@@ -247,11 +412,13 @@ def parts(tier, seed):
             enum_part('match-exhaustive-q3p3', match_exhaustive(3, 3), run_match, exhaustive=True),
             hyp_part('tok-random', tok_cases, run_tok, 6000, min_shard=500),
             hyp_part('match-random', match_cases, run_match, 6000, min_shard=500),
+            hyp_part('matcher-histories', history_cases, run_history, 3000, min_shard=250),
         ]
     return [
         enum_part('tok-exhaustive-len6', tok_exhaustive(SMALL8, 6), run_tok, exhaustive=True),
         enum_part('match-exhaustive-q4p3', match_exhaustive(4, 3), run_match, exhaustive=True),
         hyp_part('tok-random', tok_cases, run_tok, 200000, min_shard=500),
         hyp_part('match-random', match_cases, run_match, 200000, min_shard=500),
+        hyp_part('matcher-histories', history_cases, run_history, 60000, min_shard=250),
         __import__('checks.fuzz_tier', fromlist=['x']).atheris_part('atheris-coverage-guided', 'c16', 120, run_any),
     ]
